@@ -513,7 +513,7 @@ var propAssumptions = func() map[string][]string {
 		heap  = "HEAP-CLOSED (assumed at function entry): references stored in the heap refer to existing cells; VAL-INV: an interface value never holds a typed-nil map pointer (obligation at every MakeInterface of a map pointer, assumed at every type test)"
 		om    = "A-OM (assumed contract of github.com/elliotchance/orderedmap/v3): Set appends or overwrites in place, Get, Front/Next iterate in insertion order; thorough tier runs a bounded differential of the model against the library"
 		js    = "A-JSON (assumed): Decoder.Token/More tokenise as documented (UseNumber => json.Number); json.Marshal of a scalar is its compact one-line JSON text; 0 round-trips"
-		lem   = "bridging lemmas L-clean / L-shape / L-ni / L-fix (relations => property over whole trees, by induction over the relations) are paper arguments in DESIGN.md, not mechanised"
+		lem   = "bridging lemmas L-shape / L-clean / L-ni / L-fix (one-level relations => the statement over whole trees) are proved in Lean over a tree model of JSON values (lean/Bridge.lean, obligations bridge/*, structural induction); NOT mechanised: that the Lean definitions relV / relM / relL / leafRel / redV mirror the prelude's defining axioms elemrelq-def / elemrela-def / keyokq-def / qacc-* / the exact-leaf-function postcondition (read off by hand), and that the SMT leaf lemmas are the hypotheses LeafKind / LeafClean / LeafClass / LeafIdem used there; the pipeline-stage relation ElemRelP has more cases (namespaces, sub-pipelines, operator arrays) of the same form and is covered by analogy only"
 		det   = "A-DET: getOp is a function of key-path content and search flag (trusted postcondition; supported by the frame back end)"
 		scan  = "A-SCAN / A-FMT / A-BUF (assumed): bufio.Scanner splits lines and reports read errors through Err; gzip damage surfaces as a read error; fmt.Fprintln returns the writer's error; a *bufio.Writer hands data to the wrapped writer at Flush"
 		str   = "A-STR / A-RE (assumed): strings.Split / SplitN / Join / TrimLeft / TrimSpace / Replace / Index / LastIndex and regexp behave as their named spec functions; string contents are otherwise abstract"
